@@ -6,6 +6,10 @@
 (* to another route through the machine); TLC checks LawOK on every case.  *)
 (*  ctrl    CTRL cw cv after PUSH g   = table gate g with the ctrl         *)
 (*          modifier (block form CtrlM of Gates.tla) on wires cw \o g.w    *)
+(*  ctrlnest CTRL cw1 cv1 ; CTRL cw2 cv2 after an arithmetic operand       *)
+(*          = one CTRL on (cw2 \o cw1) with values (cv2 \o cv1) (each     *)
+(*          value stays with ITS wire, in either listing order), and for   *)
+(*          cv1 # cv2 differs from the value-swapped flattening            *)
 (*  adjpow  ADJ / POW z after PUSH g  = table gate with the adj / pow      *)
 (*          modifier (power taken before the embedding)                    *)
 (*  exp     EXP a after PUSH word P   = PauliRot(-2 phi, P) of the table   *)
@@ -34,6 +38,8 @@ Sc(z, k) == [c |-> z, k |-> k]
 Cases ==
   {[law |-> "ctrl", g |-> OnWires(g, p), cw |-> <<p[Len(g.w)+1]>>, cv |-> <<v>>] : g \in OneQ(3) \cup TwoQ(5), p \in Perms, v \in {0, 1}}
   \cup {[law |-> "ctrl", g |-> OnWires(g, p), cw |-> <<p[2], p[3]>>, cv |-> cv] : g \in OneQ(7), p \in Perms, cv \in {<<0,0>>, <<0,1>>, <<1,0>>, <<1,1>>}}
+  \cup {[law |-> "ctrlnest", g |-> OnWires(g, p), kind |-> k, cw1 |-> <<p[2]>>, cw2 |-> <<p[3]>>, cv1 |-> <<v1>>, cv2 |-> <<v2>>] :
+           g \in OneQ(3), k \in {"gate", "prod", "sum", "sprod", "adj"}, p \in Perms, v1 \in {0, 1}, v2 \in {0, 1}}
   \cup {[law |-> "adjpow", g |-> OnWires(g, p), z |-> z] : g \in OneQ(5) \cup TwoQ(3), p \in {<<1,2,3>>, <<3,1,2>>}, z \in -2..3}
   \cup {[law |-> "exp", g |-> GR("PauliWord", [i \in 1..Len(w) |-> p[i]], <<>>, w), a |-> a] : w \in Words, p \in {<<1,2,3>>, <<3,1,2>>}, a \in 0..N-1}
   \cup {[law |-> "order", g |-> OnWires(g, p), h |-> OnWires(h, q)] : g \in OneQ(3), h \in TwoQ(5), p \in {<<1,2,3>>, <<2,3,1>>}, q \in {<<1,2,3>>, <<3,2,1>>}}
@@ -51,6 +57,19 @@ LawOK ==
   CASE c.law = "ctrl" ->
          LET prog == <<Push(c.g), [op |-> "CTRL", cw |-> c.cw, cv |-> c.cv]>> IN
          GuardsOK(prog) /\ EqExact(Run(prog), Embed(WithMod(c.g, c.cw \o c.g.w, [t |-> "ctrl", cv |-> c.cv]), n))
+    [] c.law = "ctrlnest" ->
+         LET h == GR("T", c.g.w, <<>>, <<>>)
+             OPD == CASE c.kind = "gate" -> <<Push(c.g)>>
+                    [] c.kind = "prod" -> <<Push(c.g), Push(h), [op |-> "PROD", k |-> 2]>>
+                    [] c.kind = "sum" -> <<Push(c.g), Push(h), [op |-> "SUM", k |-> 2]>>
+                    [] c.kind = "sprod" -> <<Push(c.g), [op |-> "SPROD", c |-> Sc(ImI, 1)]>>
+                    [] OTHER -> <<Push(h), Push(c.g), [op |-> "PROD", k |-> 2], [op |-> "ADJ"]>>
+             CT(cw, cv) == [op |-> "CTRL", cw |-> cw, cv |-> cv]
+             nested == Run(OPD \o <<CT(c.cw1, c.cv1), CT(c.cw2, c.cv2)>>) IN
+         /\ GuardsOK(OPD \o <<CT(c.cw1, c.cv1), CT(c.cw2, c.cv2)>>)
+         /\ EqExact(nested, Run(OPD \o <<CT(c.cw2 \o c.cw1, c.cv2 \o c.cv1)>>))
+         /\ EqExact(nested, Run(OPD \o <<CT(c.cw1 \o c.cw2, c.cv1 \o c.cv2)>>))
+         /\ (c.cv1 # c.cv2 => ~EqExact(nested, Run(OPD \o <<CT(c.cw2 \o c.cw1, c.cv1 \o c.cv2)>>)))
     [] c.law = "adjpow" ->
          /\ EqExact(Run(<<Push(c.g), [op |-> "POW", z |-> c.z]>>), Embed(WithMod(c.g, c.g.w, [t |-> "pow", z |-> c.z]), n))
          /\ EqExact(Run(<<Push(c.g), [op |-> "ADJ"]>>), Embed(WithMod(c.g, c.g.w, [t |-> "adj"]), n))
